@@ -365,14 +365,16 @@ class GaussianMerge(Compiler):
         changed = True
         while changed:
             changed = False
-            for member in group[1:]:
+            for member in group:
                 ancestors = nx.ancestors(self.DAG, member)
                 for other in group:
                     if other is member:
                         continue
                     between = nx.descendants(self.DAG, other) & ancestors
                     if any(node not in group for node in between):
-                        group = [g for g in group if g is not member]
+                        # op itself always stays: drop the other end of the path instead
+                        dropped = other if member is op else member
+                        group = [g for g in group if g is not dropped]
                         changed = True
                         break
                 if changed:
